@@ -362,3 +362,67 @@ def render_fragment(mol, atoms, start, child_order=0, ring_base=1):
                 pieces.append(('close', a))
     emit(start)
     return pieces, seen
+
+
+# ---- spec-side reading of the descriptors written in a fragment text -----
+_ORD = {'-': '1', '=': '2', '#': '3', '$': '4', '.': '0'}
+
+
+def parse_descriptors(text):
+    """{atom index: [descriptor + order digit, ...]} as written in a (concrete) fragment text.
+    A leading descriptor belongs to the first atom and carries its order symbol behind it; any other descriptor
+    belongs to the atom it is written after (after ring digits, further descriptors or a closed branch of that atom)
+    and carries its order symbol in front (docs/source/syntax/fragments.rst)."""
+    out = {}
+    n = len(text)
+    i = 0
+    natoms = 0
+    prev = 0
+    stack = []
+    pending = None
+    while i < n:
+        c = text[i]
+        if c == '[':
+            j = text.index(']', i)
+            body = text[i + 1:j]
+            if body and body[0] in '$<>!':
+                if natoms == 0:
+                    order = '1'
+                    if j + 1 < n and text[j + 1] in _ORD:
+                        order = _ORD[text[j + 1]]
+                        j += 1
+                    out.setdefault(0, []).append(body + order)
+                else:
+                    out.setdefault(prev, []).append(body + (_ORD[pending] if pending else '1'))
+                pending = None
+            else:
+                prev = natoms
+                natoms += 1
+                pending = None
+            i = j + 1
+            continue
+        if c in _ORD and c != '$':
+            pending = c
+        elif c == '$':
+            pending = c
+        elif c == '(':
+            stack.append(prev)
+            pending = None
+        elif c == ')':
+            prev = stack.pop()
+            pending = None
+        elif c == '%':
+            i += 2
+            pending = None
+        elif c.isdigit():
+            pending = None
+        elif c in '/\\':
+            pass
+        else:
+            if text[i:i + 2] in ('Cl', 'Br'):
+                i += 1
+            prev = natoms
+            natoms += 1
+            pending = None
+        i += 1
+    return out
